@@ -88,7 +88,14 @@ CMR_ERROR computePivots(
       denseRow[nz->column] += nz->value;
     }
 
-    if (characteristic < 0)
+    if (characteristic > 0)
+    {
+      /* Entries of the list matrix are not reduced after previous pivots: work with their residues. */
+
+      for (size_t c = 0; c < numAffectedColumns; ++c)
+        denseRow[affectedColumns[c]] = moduloTernary(denseRow[affectedColumns[c]], characteristic);
+    }
+    else if (characteristic < 0)
     {
       /* Check for non-ternary entries in pivot row. */
 
@@ -135,7 +142,12 @@ CMR_ERROR computePivots(
       denseColumn[nz->row] += nz->value;
     }
 
-    if (characteristic < 0)
+    if (characteristic > 0)
+    {
+      for (size_t r = 0; r < numAffectedRows; ++r)
+        denseColumn[affectedRows[r]] = moduloTernary(denseColumn[affectedRows[r]], characteristic);
+    }
+    else if (characteristic < 0)
     {
       /* Check for non-ternary entries in pivot column. */
 
